@@ -40,6 +40,15 @@ CHECKS = {
              'DashTiming, a sample through real manifests, and TLC validates the recorded outputs (single-state and successive-instant clauses).',
         note='Trusted: TLC, shims, patched clock, lxml projection of MPD attributes. Explicit starts are whole seconds; epoch is combined '
              'only with instants before 2038. Known finding C08-publish-regress matched by signature.', design='4 C08'),
+    'C13': dict(
+        technique='TLA+ spec HttpRange.tla (RFC 7233 single-range semantics): TLC exhaustive small scope; emitted table replayed on the '
+                  'real get_http_range; real range requests on every range-capable URL kind; TLC trace validation',
+        text='TLC enumerates every header shape with every integer 0..8 in every position against lengths 1..6, checks totality of the '
+             'RFC outcome classes and that the implementation-shaped model satisfies every clause; the table (plus large-length boundary '
+             'rows) runs on the real get_http_range, and real media-segment / on-demand URLs are requested with header families around '
+             '0, L/2, L-1, L, L+1, 2L and malformed strings; TLC judges every response (status, Content-Range, body = slice).',
+        note='Trusted: TLC; the RFC 7233 grammar classifier (regex) and the body/slice comparison in the projection. Init segments are out of scope.',
+        design='4 C13'),
     'C20': dict(
         technique='TLA+ spec BufferedReader.tla: TLC exhaustive refinement check (implementation-shaped cache model vs '
                   'in-memory stream) + every model edge replayed on the real class + TLC trace validation of recorded calls',
